@@ -145,6 +145,8 @@ def check_split(A, q0, q1, tol, sref, fail, tag):
     try:
         u, s, v, q = bond_ops.split_matrix_svd(A, q0, q1, tol)
     except Exception as e:
+        if type(e).__name__ == 'CaseTimeout':      # the runner's wall-clock alarm must reach the runner
+            raise
         fail('returns', f'{tag}: split_matrix_svd raised {type(e).__name__}: {e}')
         return None
     if oracle.snapshot([A, q0, q1]) != snap:
@@ -287,7 +289,9 @@ def run_case(c):
             check_split(A, q0, q1, tol, sref, fail, tag)
             try:
                 u, s, v, q = bond_ops.split_matrix_svd(A, q0, q1, tol)
-            except Exception:
+            except Exception as e:
+                if type(e).__name__ == 'CaseTimeout':      # the runner's wall-clock alarm must reach the runner
+                    raise
                 continue
             # exact decision: kept set identified through the returned charges (one singular value per charge)
             idx_of_charge = {int(ch[i]): i for i in range(K)}
@@ -312,6 +316,8 @@ def run_case(c):
                 try:
                     idx = bond_ops.retained_bond_indices(s, tol)
                 except Exception as e:
+                    if type(e).__name__ == 'CaseTimeout':      # the runner's wall-clock alarm must reach the runner
+                        raise
                     fail('returns', f'{tag}: raised {type(e).__name__}: {e}')
                     continue
                 if not (s.dtype == s0.dtype and np.array_equal(s, s0)):
@@ -338,6 +344,8 @@ def run_case(c):
                 try:
                     idx = np.asarray(bond_ops.retained_bond_indices(s, tol))
                 except Exception as e:
+                    if type(e).__name__ == 'CaseTimeout':      # the runner's wall-clock alarm must reach the runner
+                        raise
                     fail('returns', f'{tag}: raised {type(e).__name__}: {e}')
                     continue
                 if not np.array_equal(s, s0):
@@ -376,6 +384,8 @@ def run_case(c):
                 try:
                     A0, A1, qbond = ptn_mps.split_mps_tensor(A, qd0, qd1, [qa, qb], c['distr'], tol)
                 except Exception as e:
+                    if type(e).__name__ == 'CaseTimeout':      # the runner's wall-clock alarm must reach the runner
+                        raise
                     fail('returns', f'{tag}: raised {type(e).__name__}: {e}')
                     continue
                 if oracle.snapshot([A, qd0, qd1, qa, qb]) != snap:
@@ -433,7 +443,9 @@ def run_case(c):
                     if not oracle.close(merged, recM, scale=sc, tol=1e-9):
                         fail('same_reconstruction', f'{tag}: merged product differs from u diag(s) v of the matrix split by '
                                                     f'{np.linalg.norm(merged - recM)}')
-                except Exception:
+                except Exception as e:
+                    if type(e).__name__ == 'CaseTimeout':      # the runner's wall-clock alarm must reach the runner
+                        raise
                     pass
     else:
         raise ValueError(c['kind'])
